@@ -61,6 +61,9 @@ def random_seq_script(rng, n):
                         "decoy": rng.choice([0, rng.randint(1, 14)])})
     base = rng.choice([0, 65535 - rng.randint(0, n), 0xFFFFFFFF - rng.randint(0, n), rng.randrange(2 ** 32)])
     steps = [{"a": "write", "s": rng.randint(1, ns), "shape": rng.randint(0, 8), "id": i + 1} for i in range(n)]
+    for _ in range(rng.choice([0, 0, 1, 2])):      # renegotiation: bound again under another id, the old binding unbound
+        steps.insert(rng.randrange(len(steps) + 1), {"a": "rebind", "s": rng.randint(1, ns), "shape": 0,
+                                                     "id": rng.choice([0, ext, rng.randint(1, 14)])})
     return {"level": "seq", "ext": ext, "base": base, "streams": streams, "steps": steps}
 
 
